@@ -86,9 +86,13 @@ func (p *prop) runKey(f []string) core.Outcome {
 	if size == 1 {
 		adminOK = "1"
 	}
-	out := fmt.Sprintf("ok %s %s %d %d %d %s %s", core.Hex(na.Network), core.Hex(unD(na.Host)), na.StartPort, na.EndPort, size, core.Hex(unD(last)), adminOK)
+	out := fmt.Sprintf("ok %s %s %d %d %d %s %s %s", core.Hex(na.Network), core.Hex(unD(na.Host)), na.StartPort, na.EndPort, size, core.Hex(unD(last)), adminOK, core.Hex(unD(na.String())))
 	tags := []string{"key-" + na.Network}
 	var fails []core.Failure
+	// NetworkAddress.String: "The output can be parsed by ParseNetworkAddress()" — and must give the address back
+	if back, err := caddy.ParseNetworkAddress(na.String()); err != nil || back != na {
+		fails = append(fails, core.Failure{Class: "address-string-does-not-parse-back", What: fmt.Sprintf("%q prints as %q, which parses to %+v (%v)", unD(addr), unD(na.String()), back, err)})
+	}
 	if f[1] == "F" {
 		// two configs listen on the descriptor one after the other's start, both close; caddy never
 		// closes the descriptor it was given: the socket keeps accepting (as the code is, by design)
